@@ -25,6 +25,7 @@ ENTRY = {
     'E3': lambda: (lambda n: n in ('listed', 'dst')),
     'E4': lambda: 'src',
     'E5': lambda: re.compile('^_'),
+    'E6': lambda: re.compile('ub'),
 }
 
 
@@ -113,6 +114,9 @@ def run(rep, tier, seed, keep=False):
         r = tlc.ok(tlc.run('MC_Yaq_cfg', CFG % (1 if quick else 2), wd, modules={'MC_Yaq_cfg': mod}, workers=16, dump=dump, timeout=3000))
         rep.tlc('Yaqlization/G+M settings x names x forms', r)
         engine = yaql.YaqlFactory().create()
+        # history: some other part of the host created a context with delegates enabled earlier in this process;
+        # the context used below is a default one (delegates off) and must not inherit anything from it
+        yaql.create_context(delegates=True)
         ctx = yaql.create_context()
         n = 0
         nreach = 0
